@@ -1,26 +1,73 @@
 package basicnode
 
 import (
+	"errors"
 	"io"
+	"sync"
 
 	"github.com/ipld/go-ipld-prime/datamodel"
 	"github.com/ipld/go-ipld-prime/node/mixins"
 )
 
 var (
-	_ datamodel.Node          = streamBytes{nil}
+	_ datamodel.Node          = streamBytes{}
 	_ datamodel.NodePrototype = Prototype__Bytes{}
 	_ datamodel.NodeBuilder   = &plainBytes__Builder{}
 	_ datamodel.NodeAssembler = &plainBytes__Assembler{}
 )
 
 func NewBytesFromReader(rs io.ReadSeeker) datamodel.Node {
-	return streamBytes{rs}
+	return streamBytes{rs, &sync.Mutex{}}
 }
 
 // streamBytes is a boxed reader that complies with datamodel.Node.
+//
+// Every read of the node goes through its own streamCursor, so that reading
+// the node (by AsBytes or AsLargeBytes) any number of times returns the same
+// content, as the Node contract requires.
 type streamBytes struct {
 	io.ReadSeeker
+	mu *sync.Mutex // serialises the cursors that share the one underlying reader
+}
+
+// streamCursor is an independent read position over the reader of a streamBytes.
+type streamCursor struct {
+	n   streamBytes
+	off int64
+}
+
+func (c *streamCursor) Read(p []byte) (int, error) {
+	c.n.mu.Lock()
+	defer c.n.mu.Unlock()
+	if _, err := c.n.ReadSeeker.Seek(c.off, io.SeekStart); err != nil {
+		return 0, err
+	}
+	k, err := c.n.ReadSeeker.Read(p)
+	c.off += int64(k)
+	return k, err
+}
+
+func (c *streamCursor) Seek(offset int64, whence int) (int64, error) {
+	c.n.mu.Lock()
+	defer c.n.mu.Unlock()
+	switch whence {
+	case io.SeekStart:
+	case io.SeekCurrent:
+		offset += c.off
+	case io.SeekEnd:
+		end, err := c.n.ReadSeeker.Seek(0, io.SeekEnd)
+		if err != nil {
+			return 0, err
+		}
+		offset += end
+	default:
+		return 0, errors.New("streamBytes: invalid whence")
+	}
+	if offset < 0 {
+		return 0, errors.New("streamBytes: negative position")
+	}
+	c.off = offset
+	return offset, nil
 }
 
 // -- Node interface methods -->
@@ -68,7 +115,7 @@ func (streamBytes) AsString() (string, error) {
 	return mixins.Bytes{TypeName: "bytes"}.AsString()
 }
 func (n streamBytes) AsBytes() ([]byte, error) {
-	return io.ReadAll(n)
+	return io.ReadAll(&streamCursor{n: n})
 }
 func (streamBytes) AsLink() (datamodel.Link, error) {
 	return mixins.Bytes{TypeName: "bytes"}.AsLink()
@@ -77,5 +124,5 @@ func (streamBytes) Prototype() datamodel.NodePrototype {
 	return Prototype__Bytes{}
 }
 func (n streamBytes) AsLargeBytes() (io.ReadSeeker, error) {
-	return n.ReadSeeker, nil
+	return &streamCursor{n: n}, nil
 }
